@@ -174,6 +174,16 @@ func c12(c *Ctx) {
 		}, [][]*Guard{{G(`\(\(phi\(-1\) \+ 1\) < builtin\.len\(p3\)\)|\(.* < builtin\.len\(p3\)\)`, false)}}, 1, "... and answers true only after the loop over all requested locks completed", "")
 	}
 	c.atomicRangeRequests("atomic")
+	{
+		// closing a file releases every lock of that file the owner holds - whatever it holds
+		known := G(`^\(litefs\.\(\*DB\)\.GuardSet\(p0, p2\) == nil\)$|^\(nil == litefs\.\(\*DB\)\.GuardSet\(p0, p2\)\)$`, false)
+		isRet := func(in ssa.Instruction) bool { _, ok := in.(*ssa.Return); return ok }
+		c.AfterEdge("close/UnlockSHM/releases-whatever-is-held", "litefs.(*DB).UnlockSHM", known, p.PlainCalls("litefs.(*GuardSet).UnlockSHM"), isRet, 1,
+			"closing the SHM file releases the owner's SHM locks on every path on which the owner is known - not only for the WAL writer",
+			"a reader that exits holds DMS/READn shared; if its close does not release them no exclusive attempt (and no internal write lock) ever succeeds again")
+		c.AfterEdge("close/UnlockDatabase/releases-whatever-is-held", "litefs.(*DB).UnlockDatabase", known, p.PlainCalls("litefs.(*GuardSet).UnlockDatabase"), isRet, 1,
+			"closing the database file releases the owner's database locks whenever the owner is known", "")
+	}
 	c.OnlyInScope("owners/nilable-lookup", []string{"litefs", "fuse", "http"}, p.Calls("litefs.(*DB).GuardSet"), []string{pat("litefs.(*DB).UnlockDatabase"), pat("litefs.(*DB).UnlockSHM"), pat("litefs.(*DB).Unlock")}, 3, "the nil-able lookup DB.GuardSet(owner) is used only by the three unlock entry points (unlocking for an owner without a guard set is a no-op)", "")
 	c.Expect("owners/create-returns-existing", joinS(c.returnsOf("litefs.(*DB).CreateGuardSetIfNotExists")), pat("@@"), "CreateGuardSetIfNotExists resolves", "")
 	c.Before("owners/create-under-mutex", "litefs.(*DB).CreateGuardSetIfNotExists", p.Writes("litefs.DB.guardSets.m[]", "litefs.DB.guardSets[]"), p.PlainCalls("sync.(*Mutex).Lock"), 0, "the owner table is updated under its mutex", "")
